@@ -237,5 +237,5 @@ func runPInner(s *PScript) (bool, *vt.Finding) {
 }
 
 func TestShutdownPersist(t *testing.T) {
-	vt.Run(t, cP, vt.N(2400, 80000), genP, runP)
+	vt.Run(t, cP, vt.N(1600, 80000), genP, runP)
 }
